@@ -117,7 +117,8 @@ def oracle(p):
                             okk = got == ('accept',)
                         if cat in (1, 2):
                             okk = True
-                        if op[0] == 'Receive' and (got == ('conn', 6) or (got == ('conn', 3) and k == 'Data')):
+                        if op[0] == 'Receive' and (got == ('conn', 6) or (got == ('conn', 3) and k == 'Data')
+                                                   or (got == ('stream', 3) and k == 'WindowUpdate' and want[0] in (0, 4))):
                             okk = True      # a frame above MAX_FRAME_SIZE / DATA beyond the connection window: judged by C18 / C04, whatever the stream state
                         if not okk:
                             rule = None
